@@ -12,12 +12,12 @@ import math
 
 import numpy as np
 
-from .. import bus, cover, gen, monitors
+from .. import bus, core, cover, gen, monitors
 
 LEVEL = 'exploration'
 JOBS = {'quick': 2, 'thorough': 16}
 REQUIRED_MONITORS = ('rotation_contract', 'frame_contract', 'rot_relations')
-REQUIRED_CLASSES = ('call:keyword-arguments', 'axis-length:unit', 'axis-length:almost-unit', 'frame:collinear', 'frame:generic', 'triple:collinear-z', 'triple:collinear-int',
+REQUIRED_CLASSES = ('settings:warnings-as-errors', 'settings:fp-raise', 'settings:fp-ignore', 'call:keyword-arguments', 'axis-length:unit', 'axis-length:almost-unit', 'frame:collinear', 'frame:generic', 'triple:collinear-z', 'triple:collinear-int',
                     'triple:collinear-moved', 'triple:coincident-middle', 'embedded:exchange-map',
                     'embedded:minimize')
 RULE = ('rotation cases: (axis class x axis-norm decade x angle class); frame cases: (triple class x scale '
@@ -122,7 +122,7 @@ def run_rot(ctx, case):
             # the same function called by keyword (both arguments, the angle only, arguments swapped in order)
             rm = [lambda a, t: pos_rm(axis=a, theta=t), lambda a, t: pos_rm(a, theta=t), lambda a, t: pos_rm(theta=t, axis=a)][style]
             ctx.hit('call:keyword-arguments')
-        R = rm(axis, th)
+        R = core.under(ctx, core.next_settings(ctx), rm, axis, th)
         ctx.count('evaluations')
         ctx.hit('axis:' + acls)
         ctx.hit('angle:' + tcls)
@@ -238,7 +238,9 @@ def run_tri(ctx, case):
         as_list = rng.random() < 0.5
         arg = [p.copy() for p in pts] if as_list else np.array(pts)
         try:
-            res = gaddlemaps.calcule_base(arg)
+            # under the warning / floating-point settings a caller may have chosen (core.settings): the frame is the same,
+            # or the call is refused because of those settings and answers when called again without them
+            res = core.under(ctx, core.next_settings(ctx), gaddlemaps.calcule_base, arg)
         except Exception as exc:  # noqa
             ctx.violation(f'frame-raises:{type(exc).__name__}', f'{exc} for {cls}', witness={'points': pts})
             continue
